@@ -97,16 +97,16 @@ type c15Run struct {
 	opts  NodeOpts
 	start time.Time
 	// docs
-	docIDs  []string
-	deleted map[string]bool
-	history map[string]map[string]bool // docID -> set of canonical rows A has shown
-	patched bool
-	bDown   bool
-	bDead   bool
-	repSet  bool
-	colName string
+	docIDs      []string
+	deleted     map[string]bool
+	history     map[string]map[string]bool // docID -> set of canonical rows A has shown
+	patched     bool
+	bDown       bool
+	bDead       bool
+	repSet      bool
+	colName     string
 	lastFaultAt time.Time
-	shape   []string
+	shape       []string
 }
 
 func c15Sel(patched bool) string {
